@@ -8,6 +8,7 @@ from collections import Counter
 
 import z3
 
+from harness import pipeline as PL
 from vlib import hutil, loader, symx
 from vlib.symx import SInt
 
@@ -65,6 +66,7 @@ def compositions(n, maxparts=3):
 def run_batches(cr, cu, rows, cols, cuts, thr, miss, with_summary=False, hist_bound=30000):
     """drive the real functions over consecutive batches; returns the observable statistics"""
     import pandas as pd
+    PL.fresh_state()
     cr.GLOBAL_CARDINALITY_STORAGE.clear()
     cr.GLOBAL_COUNTS_STORAGE.clear()
     cr.GLOBAL_RARE_VALUE_STORAGE.clear()
